@@ -186,7 +186,61 @@ claim("C19", "proof",
       "Lean 4 proof over hand-written models + differential correspondence",
       "lean-correspondence")
 
+claim("C06", "other",
+      "Proved over the dispatch tables regenerated from common_dsp_rtcd.c / aom_dsp_rtcd.c on every run (781 entries, 800 SIMD slots; 905 with AVX-512 enabled): "
+      "select = SET_FUNCTIONS semantics (select_mem), C-only at flags 0 (flags0_selects_c), every entry has a C fallback (dispatch_c_present, one reviewed "
+      "exception proved guarded), a function registered in a slot only uses that slot's ISA by name (dispatch_slot_sound, two reviewed naming exceptions), slots "
+      "sorted, the use_cpu_flags mask is applied (mask_applied, masked_select_on_hw, selected_isa_enabled), and the congruence output_indep_of_flags whose "
+      "hypothesis KernelsBitExact is property C07. Tie: the real setup_*_rtcd_internal vs the model pointer by pointer over 36 (thorough 92) flag sets. The "
+      "property's own oracle: real encodes over six use_cpu_flags masks x content x bit depth x presets x sizes must be byte-identical (packets + recon).",
+      AX + "; finite tables discharged by decide +kernel; xlate/rtcd.py parses the gcc -E expansion and refuses unknown statement shapes (validated each run against "
+      "the real setup functions); Spec/DispatchAllow.lean holds three reviewed exceptions with reasons; byte-identity across instruction sets is SAMPLED on real "
+      "encodes, not proved (it rests on C07, which is proved for five kernels only); direct SIMD calls outside the table and AVX-512 builds are covered at table level only.",
+      "Lean 4 proof over tables regenerated from C source (translator) + whole-encoder differential over use_cpu_flags",
+      "lean-translator")
+
+claim("C07", "other",
+      "Proved in Lean at lane level, for all widths/heights of the kernel's table, all strides and all sample values (no bounded search, no bv_decide): "
+      "svt_residual_kernel8bit c = avx2 (all six widths; width 8 needs residual_stride >= 8, witness otherwise), svt_picture_average_kernel / _kernel1_line c = sse2 "
+      "(width 12 and odd heights proved to differ: no callers), svt_full_distortion_kernel_cbf_zero32_bits c = avx2, and svt_full_distortion_kernel32_bits c vs "
+      "avx2 characterised exactly (prediction term equal for all inputs; residual term equal iff no lane carry: fullDist32_eq_iff_noCarry, with divergence "
+      "witnesses = a recorded finding). Intrinsic models are validated against the hardware each run. The other kernels are SAMPLED: a generic harness drives 767 "
+      "of 781 dispatch entries (799 of 800 SIMD slots called by name) on boundary/extreme/random buffers inside hand-written domains and compares every SIMD "
+      "variant with the C reference; the 14 entries not exercised are listed by name in the evidence.",
+      AX + "; intrinsic lane models and hand transcriptions of the five kernels are tied by correspondence (0 mismatches incl. all op lines where real C and real "
+      "AVX2 differ); for 762 entries bit-exactness is sampled only; four recorded findings (three genuine SIMD != C defects, one benign return value).",
+      "Lean 4 proof for listed kernels + differential harness over the dispatch table",
+      "lean-correspondence")
+
+claim("C15", "proof",
+      "Over ctor/dctor tables regenerated from the source on every run (81 classes found, 80 translated, 1 reviewed exception): dctor_releases_all / "
+      "created_subset_released / no_double_release / raw_releases_once hold at ANY construction point for every class in the good set (72 classes; the others carry "
+      "machine-checked witnesses); on the SRM model of C23: shutdown_wakes_consumers, and kernel_exits_on_shutdown + shutdown_list_matches_kernels over the generated "
+      "table of the 16 kernels vs the 16 resources svt_av1_enc_deinit shuts down. The liveness half of the property is FALSE and stated: shutdown_misses_producers, "
+      "kernels_block_on_empty (15 of 16 kernels call svt_get_empty_object) - finding F6. Tie: harness/teardown.c tears the REAL encoder and decoder down at every "
+      "protocol point (after handle creation, rejected/accepted config, init, k sends with j packets fetched, EOS drain, mid-stream) under a watchdog, counting "
+      "live heap blocks (linker --wrap) and threads.",
+      AX + "; xlate/lifecycle.py is syntactic (member-name matching; no aliasing; ownership flags not evaluated); decoder side is runtime-only; OS-level release "
+      "is observed through block/thread counts only; recorded findings: mid-stream deinit hang (F6), unfetched-packet leak, NULL-config leak, decoder MT sync-object leak.",
+      "Lean 4 proof over tables regenerated from C source + teardown-point harness on the real libraries",
+      "lean-translator")
+
+claim("C16", "proof",
+      "EB_NEW / EB_MALLOC* / EB_CREATE_* / EB_DELETE semantics are modelled in Lean (Model/Unwind.lean); unwind_no_leak_any / unwind_no_leak: for ANY class table "
+      "meeting three decidable obligations (dctor assigned first, created subset released, releases NULL-tolerant), any failure index k and any constructor path, "
+      "construction returns an error with an empty heap or succeeds - never a crash or a leak (induction over event lists and class nesting); failure_reported; "
+      "the obligations are evaluated on the table regenerated from the source every run (generated_good, generated_unwind_no_leak, generated_failure_reported), "
+      "failing classes carry machine-checked witnesses (bad_classes_witnessed) and coincide with the translator's list (bad_classes_agree, swallowers_agree). Tie: "
+      "the guarded fail-the-k-th hook + harness/faultinj.c on REAL encoder and decoder sessions (~100k allocation sites counted; quick 260 + every decoder k; "
+      "thorough 2900 encoder + all decoder k; every fault fired), with the live-block/thread count as leak oracle and site agreement with the model: the five "
+      "destructors the model flags are exactly the ones that crash under real fault injection (one since repaired).",
+      AX + "; syntactic translator (no aliasing, counts/ownership flags not evaluated); 94 raw malloc-family calls outside the macros are not failed; "
+      "whole-library behaviour is sampled per failure index, not proved; 21 recorded findings (4 encoder destructors that crash on partial objects, 1 leak, 4 "
+      "swallowed error codes, 12 decoder sites: the decoder handles no allocation failure).",
+      "Lean 4 proof (generic unwinding theorem + obligations over tables regenerated from C source) + fault injection on the real libraries",
+      "lean-translator")
+
 _PENDING = ("check under construction (model planned in DESIGN.md section 5); not claimed until its theorem and correspondence run exist "
             "and pass on the unchanged tree")
-for _p in ["C01", "C04", "C05", "C06", "C07", "C08", "C09", "C10", "C11", "C15", "C16", "C17", "C20", "C27"]:
+for _p in ["C01", "C04", "C05", "C08", "C09", "C10", "C11", "C17", "C20", "C27"]:
     NOT_CLAIMED[_p] = _PENDING
